@@ -36,6 +36,9 @@ class ObjectPool(Generic[T]):
     ):
         self._used_objs: Deque[T] = collections.deque()
         self._free_objs: Deque[T] = collections.deque()
+        # bumped by clear(); an object checked out under an older generation
+        # was forgotten by clear() while in use
+        self._generation = 0
         self._obj_creator = obj_creator
         if lock_generator is None:
             self._lock = threading.Lock()
@@ -95,7 +98,17 @@ class ObjectPool(Generic[T]):
 
             self._used_objs.append(obj)
             obj._last_used = now
+            obj._pool_generation = self._generation
             return obj
+
+    def _forgotten(self, obj) -> bool:
+        """True (once) for an object that was checked out when clear() ran.
+        Must be called with the lock held."""
+        generation = getattr(obj, "_pool_generation", self._generation)
+        if generation != self._generation:
+            obj._pool_generation = self._generation
+            return True
+        return False
 
     def destroy(self, obj, silent=True) -> None:
         was_dropped = False
@@ -104,32 +117,44 @@ class ObjectPool(Generic[T]):
                 self._used_objs.remove(obj)
                 was_dropped = True
             except ValueError:
-                if not silent:
+                # clear() forgot it while it was checked out: remove it now
+                was_dropped = self._forgotten(obj)
+                if not was_dropped and not silent:
                     raise
         if was_dropped and self._after_remove is not None:
             self._after_remove(obj)
 
     def release(self, obj, silent=True) -> None:
+        forgotten = False
         with self._lock:
             try:
                 self._used_objs.remove(obj)
                 self._free_objs.append(obj)
                 obj._last_used = self._idle_clock()
             except ValueError:
-                if not silent:
+                # clear() forgot it while it was checked out: it does not go
+                # back into the pool, so it must not stay open either
+                forgotten = self._forgotten(obj)
+                if not forgotten and not silent:
                     raise
+        if forgotten and self._after_remove is not None:
+            self._after_remove(obj)
 
     def clear(self) -> None:
         if self._after_remove is not None:
             needs_destroy: list[T] = []
             with self._lock:
-                needs_destroy.extend(self._used_objs)
+                # Objects that are checked out are still in use by their
+                # holder: they are only forgotten here, and removed when the
+                # holder gives them back (see release() and destroy()).
                 needs_destroy.extend(self._free_objs)
                 self._free_objs.clear()
                 self._used_objs.clear()
+                self._generation += 1
             for obj in needs_destroy:
                 self._after_remove(obj)
         else:
             with self._lock:
                 self._free_objs.clear()
                 self._used_objs.clear()
+                self._generation += 1
